@@ -269,6 +269,7 @@ def cases(draw):
         n = img["n"]
         if draw(st.integers(0, 2)) == 0:
             img["alpha"] = True
+            img["h"] += img["h"] % 2  # even height: a size with render size == source size exists ("match")
         kind = draw(st.sampled_from(["file"] * 5 + ["pil"] * 3 + ["url"] * 5 + ["url404", "urlbad", "urlarg"]))
     else:
         img = draw(gen.still_image(max_w=8, max_h=8, modes=["L", "RGB", "RGB", "RGBA", "P", "LA"]))
@@ -283,7 +284,8 @@ def cases(draw):
     cfg = {"cols": draw(st.integers(4, 24)), "rows": draw(st.integers(3, 12)),
            "cell": draw(st.sampled_from([None, [1, 2], [2, 4], [3, 5]])), "name": ident[0], "version": ident[1],
            "bg": draw(st.sampled_from([None, [16, 32, 48]]))}
-    case = {"style": style, "source": src, "cfg": cfg, "size0": draw(size_setting())}
+    size0 = ["match"] if draw(st.integers(0, 3)) == 0 else draw(size_setting())
+    case = {"style": style, "source": src, "cfg": cfg, "size0": size0}
     if style == "iterm2":
         case["rff"] = draw(st.sampled_from(["unset", "unset", True, False]))
     if kind in ("url404", "urlbad", "urlarg"):
@@ -1158,7 +1160,7 @@ CLAUSES = [
         "history",
         check_history,
         cases,
-        budget={"quick": 4000, "thorough": 60000},
+        budget={"quick": 6000, "thorough": 200000},
         floors={"src:file": 0.15, "src:pil": 0.06, "src:url": 0.12, "still": 0.05, "style:block": 0.15,
                 "style:kitty": 0.15, "style:iterm2": 0.15, "fault_fired": 0.07, "fault_in_next": 0.04,
                 "early_close": 0.05, "abandon": 0.04, "exhausted": 0.04, "cached_multi_pass": 0.04, "seek": 0.04,
